@@ -47,7 +47,7 @@ def gen_case(rng, e, idx, real=False):
     p = {}
     p["file"] = e["path"]
     p["threads"] = rng.choice((1, 2, 2, 3, 3, 4, 4, 5, 6, 7, 8))
-    p["mlt"] = rng.choice((HUGE, HUGE, HUGE, 1, 200000, 450000, 700000, 1500000, 3000000, 12000000))
+    p["mlt"] = rng.choice((HUGE, HUGE, HUGE, HUGE, HUGE, HUGE, 1, 200000, 450000, 700000, 1500000, 3000000, 12000000))
     r = rng.random()
     p["mls"] = HUGE if r < 0.8 else rng.choice((1, 300000, 1200000, 2500000, 6000000))
     p["mlraise"] = rng.choice((0, 1))
@@ -83,6 +83,30 @@ def gen_case(rng, e, idx, real=False):
         p["pspur"] = rng.choice((0, 4, 4, 32))
         p["maxsteps"] = 20000000
     return p
+
+
+POOL_WEIGHTS = (("valid-sized", 0.34), ("valid-other", 0.12), ("invalid-sized", 0.30), ("invalid-other", 0.10), ("repo", 0.14))
+
+
+def pools_of(entries):
+    pools = {k: [] for k, _ in POOL_WEIGHTS}
+    for e in entries:
+        if e["kind"].startswith("repo-"):
+            pools["repo"].append(e)
+        elif e["valid"]:
+            pools["valid-sized" if e.get("sized") and e.get("nblocks", 0) >= 2 else "valid-other"].append(e)
+        else:
+            pools["invalid-sized" if e.get("sized") else "invalid-other"].append(e)
+    return pools
+
+
+def pick_pool(rng, pools):
+    r = rng.random()
+    for k, w in POOL_WEIGHTS:
+        if r < w and pools[k]:
+            return k
+        r -= w
+    return "valid-sized" if pools["valid-sized"] else next(k for k in pools if pools[k])
 
 
 def line_of(p):
@@ -254,11 +278,11 @@ def run(ctx):
     for e in entries:
         ctx.count("file-kind:" + e["kind"])
     # ---- K1: direct oracle under the controlled scheduler
-    ncases = 2400 if quick else 40000
+    ncases = 10000 if quick else 160000
     cases = []
-    multi = [e for e in entries if e.get("nblocks", 0) >= 2 or e.get("nblocks", 0) == -1]
+    pools = pools_of(entries)
     for i in range(ncases):
-        e = rng.choice(multi) if rng.random() < 0.85 else rng.choice(entries)
+        e = rng.choice(pools[pick_pool(rng, pools)])
         cases.append((e, gen_case(rng, e, i)))
     bad_total = run_cases(ctx, exe, cases, "controlled", model_ok=p_ok)
     # ---- K2 (thorough): real scheduling under ThreadSanitizer
@@ -266,8 +290,8 @@ def run(ctx):
         texe = build(ctx, "tsan")
         if texe is not None:
             tcases = []
-            for i in range(3000):
-                e = rng.choice(multi) if rng.random() < 0.9 else rng.choice(entries)
+            for i in range(4000):
+                e = rng.choice(pools[pick_pool(rng, pools)])
                 tcases.append((e, gen_case(rng, e, i, real=True)))
             run_cases(ctx, texe, tcases, "tsan-real", model_ok=False, tsan=True)
     return "proof"
